@@ -5,22 +5,25 @@ open HailVerif HailVerif.DriverUtil HailVerif.BatchDsl
 def hexVal (c : Char) : Option Nat :=
   if c.isDigit then some (c.toNat - 48) else if 'a' ≤ c ∧ c ≤ 'f' then some (c.toNat - 87) else none
 
-/-- hex of ASCII bytes, `-` = empty -/
+/-- hex of UTF-8 bytes, `-` = empty -/
 def unhex (s : String) : Option Str :=
   if s == "-" then some [] else
-  let rec go : List Char → Option Str
+  let rec go : List Char → Option (List UInt8)
     | [] => some []
     | [_] => none
     | a :: b :: r =>
       match hexVal a, hexVal b, go r with
-      | some x, some y, some t => some (Char.ofNat (16 * x + y) :: t)
+      | some x, some y, some t => some (UInt8.ofNat (16 * x + y) :: t)
       | _, _, _ => none
-  go s.toList
+  match go s.toList with
+  | some bytes => (String.fromUTF8? (ByteArray.mk bytes.toArray)).map String.toList
+  | none => none
 
 def hexDigit (n : Nat) : Char := if n < 10 then Char.ofNat (48 + n) else Char.ofNat (87 + n)
 
 def hex (s : Str) : String :=
-  if s.isEmpty then "-" else String.ofList (s.map fun c => [hexDigit (c.toNat / 16), hexDigit (c.toNat % 16)]).flatten
+  if s.isEmpty then "-" else
+  String.ofList ((String.ofList s).toUTF8.toList.map fun b => [hexDigit (b.toNat / 16), hexDigit (b.toNat % 16)]).flatten
 
 def pairList? (s : String) : Option (List (Str × Str)) :=
   if s == "-" then some [] else
